@@ -18,7 +18,7 @@ def getOne (id : Nat) : Bytes → Option Bytes
     else
       let extId := b.toNat / 16
       let len := b.toNat % 16 + 1
-      if extId = 15 then none
+      if extId = c15StopIdGet then none
       else if extId = id then (if len ≤ rest.length then some (rest.take len) else none)
       else getOne id (rest.drop len)
 termination_by bs => bs.length
@@ -43,7 +43,7 @@ def getExtension (h : Header) (id : UInt8) : Option Bytes :=
   | none => none
   | some e =>
     if e.profile.toNat = c15OneByteProfile then getOne id.toNat e.data
-    else if e.profile.toNat = c15TwoByteProfile then getTwo id.toNat e.data
+    else if e.profile.toNat &&& c15TwoByteMask = c15TwoByteProfile then getTwo id.toNat e.data
     else none
 
 /-- the rebuild loop of `set_extension`: `none` = a non-target element overruns the block
@@ -56,7 +56,7 @@ def rebuild (id : Nat) (newElem : Bytes) : Bytes → Option (Bytes × Bool)
     else
       let extId := b.toNat / 16
       let len := b.toNat % 16 + 1
-      if extId = 15 then some ([], false)
+      if extId = c15StopIdSet then some ([], false)
       else if extId = id then
         (rebuild id newElem (rest.drop len)).map fun r => (newElem ++ r.1, true)
       else if len ≤ rest.length then
